@@ -367,6 +367,13 @@ func (e *c09env) backend(s session) string {
 	return e.mpxSrv.Addr
 }
 
+func disconnectedFlag(cl any, isRPC bool) bool {
+	if isRPC {
+		return cl.(rpc.Client).Disconnected().IsSet()
+	}
+	return cl.(mpx.Client).Disconnected().IsSet()
+}
+
 type presetClient struct {
 	cl    any
 	close func()
@@ -379,6 +386,7 @@ func (e *c09env) runFaulted(s session, plan netfx.Plan, kase *c09case) (f failur
 		panic("infrastructure: " + err.Error())
 	}
 	defer px.Close()
+	libDebugReset()
 	px.SetPlan(plan)
 	px.Hold()
 	defer px.Release()
@@ -534,8 +542,12 @@ func (e *c09env) runFaulted(s session, plan netfx.Plan, kase *c09case) (f failur
 			select {
 			case <-flag.Wait():
 			case <-time.After(5 * time.Second):
+				if d := libDebugDump(); d != "" {
+					os.WriteFile("/tmp/verif-mut/c09_libdebug.txt", []byte(d), 0o644)
+				}
+				diag := fmt.Sprintf(" [proxy: accepted=%d live=%d planned-live=%d; client flags: connected=%v disconnected=%v]\n%s", px.Accepted.Load(), px.Live.Load(), px.PlannedLive(), flag.IsSet(), disconnectedFlag(cl, s.rpc), goroutineDump())
 				closeClient()
-				return failure{"no-auto-reconnect", "auto-connect client did not reconnect by itself within 5 s after the path was healed"}, true
+				return failure{"no-auto-reconnect", "auto-connect client did not reconnect by itself within 5 s after the path was healed" + diag}, true
 			}
 		}
 		o2 := &observer{}
